@@ -403,7 +403,11 @@ func monC17(c *drv.Ctx) {
 		b, top := gen.NestedPath(path, depth, i/(13*int64(len(gen.NestPaths))) == 1)
 		cs.Desc = M{"path": path, "depth": depth, "input_hex": hexOf(b)}
 		c17Skip(cs, b, top)
-		c17Skip(cs, b[:len(b)-1], top)
+		// every cut point: in particular the ones where the input ends exactly where the 65th container would begin
+		for cut := 0; cut < len(b); cut++ {
+			c17Skip(cs, b[:cut], top)
+		}
+		cs.C.Obs("deep values cut at every position", 1)
 		// a negative size right at the innermost level
 		bad := append([]byte(nil), b...)
 		if len(bad) > 8 {
